@@ -6,7 +6,7 @@
 ID="$1"; CRATE="$2"; DEMO="$3"; shift 3
 WT=/tmp/seed-$ID; export CARGO_TARGET_DIR=/var/tmp/seed-verify-$ID CARGO_NET_OFFLINE=true
 # private target dir per seed (a shared one mixes artifacts of different worktrees); seeded from the shared cache for the registry deps
-if [ ! -d "$CARGO_TARGET_DIR" ]; then cp -a /var/tmp/seed-target "$CARGO_TARGET_DIR" 2>/dev/null || mkdir -p "$CARGO_TARGET_DIR"; fi
+mkdir -p "$CARGO_TARGET_DIR"; export CARGO_INCREMENTAL=0
 OUT=/verif/seeded/$ID; mkdir -p $OUT
 cd $WT || exit 2
 cp SEED/patch.diff $OUT/patch.diff
